@@ -61,6 +61,7 @@ type Exec struct {
 	ghostIdx map[string]string
 	boxAx map[string]bool
 	acqCache map[*ssa.Function]bool
+	frameStack []*frame
 	nGuard, nGuardSyntactic, nLockOps int
 	entryAlloc Term
 	topCt *Contract
@@ -556,6 +557,7 @@ type frame struct {
 	entryArgs []Value
 	rangeIdxCell map[*ssa.BasicBlock]*Cell
 	panicExits []*State // states in which a `maypanic` callee panicked inside this frame
+	parent *frame // the frame this one is executed in place for (inlined callee / closure), if any
 }
 
 func (e *Exec) constVal(c *ssa.Const) Value {
@@ -929,6 +931,11 @@ func (e *Exec) run(fn *ssa.Function, args []Value, bindings []Value, st *State, 
 			fr.vals[p] = args[i]
 		}
 	}
+	if n := len(e.frameStack); n > 0 {
+		fr.parent = e.frameStack[n-1]
+	}
+	e.frameStack = append(e.frameStack, fr)
+	defer func() { e.frameStack = e.frameStack[:len(e.frameStack)-1] }()
 	fr.entryState = st.clone()
 	loops := findLoops(fn)
 	if len(loops) > 0 {
